@@ -4014,6 +4014,18 @@ class LoopNode(ActionSinkNode, ActionSourceNode):
                 if transition.target in sub_dfa.accepting_states:
                     raise IllegalDFAStateConflictsError("Ambigious loop: should loop or continue matching", transition)
 
+        # The same question for continuations that lead elsewhere: a symbol on which the end of the body can still continue (a longer
+        # match, an optional tail) must not also be able to start the next iteration.
+        loop_start = sub_dfa.starting_state
+        if not isinstance(loop_start, DFProxyState):
+            for accept_state in sub_dfa.accepting_states:
+                if accept_state is loop_start or isinstance(accept_state, DFProxyState):
+                    continue
+                for symbol in accept_state.local_alphabet(excluding=()) | loop_start.local_alphabet(excluding=()):
+                    continuing, restarting = accept_state[symbol], loop_start[symbol]
+                    if continuing is not None and restarting is not None and not continuing.error_handling and not restarting.error_handling:
+                        raise IllegalDFAStateConflictsError("Ambigious loop: should loop or continue matching", continuing, restarting)
+
         # If there are error-handling transitions on the accept node, point them to the starting node as fallthrough (so that anything that _isn't_ getting matched by 
         # the last node gets forwarded to the start, looping). If there are no transitions on the final node, point everything to the start.
         for accept_state in sub_dfa.accepting_states:
